@@ -20,7 +20,8 @@ from ..cfg import must_facts, holds, canon_fact
 from ..rules import settle_sites, check_settles, event_facts, node_calls, callers_of
 from ..mutate import mutate, remove_stmts, replace_expr, replace_stmt, parse_stmt, parse_expr
 from ..model import AnalysisError
-from ..x_sync import own_walk, guard_models, aug_delta, node_counts, method_call_on, container_uses, exit_states, own_find, own_settle_sites
+from ..x_sync import in_cycle, check_none_tests, own_walk, guard_models, aug_delta, node_counts, method_call_on, container_uses, exit_states, own_find, own_settle_sites
+from .c34 import _while_to_if
 from .c33 import check_timeout_cb, _is_grant, _grant_target, _grant_value, _drop_done_test, _rename_attr, _cmp_op
 
 TECHNIQUE = "typestate over the CFG (item/waiter accounting), exhaustive folding of small predicates, dominance, table agreement, settle-discipline lint"
@@ -154,6 +155,14 @@ def check_full(ck):
     ck.ob("C35.full", fi, fi.node, not bad, "full() is True exactly when maxsize > 0 and qsize >= maxsize, for all maxsize 0..3 x qsize 0..5 (wrong at (maxsize,qsize,result) %s)" % bad[:4],
           construct="full() table mismatches=%d" % len(bad))
     ck.note("full(): %d (maxsize, qsize) pairs evaluated by folding the function body" % n)
+    init = ck.func(Q, "Queue.__init__")
+    mp = [x for x in init.params() if x != "self"][0]
+    sts = q.stores_to(init.node, "self._maxsize")
+    ck.ob("C35.full", init, init.node, len(sts) == 1 and q.dotted(getattr(sts[0], "value", None)) == mp, "the bound is the constructor's maxsize", construct="maxsize stored")
+    fa = must_facts(init.cfg)
+    rs = [nd for nd in init.cfg.stmt_nodes(lambda nd: nd.kind == "stmt" and isinstance(nd.ast, ast.Raise))]
+    ok = any(guard_models(fa[nd.id], [mp], range(-3, 4)) == {(-3,), (-2,), (-1,)} for nd in rs)
+    ck.ob("C35.full", init, init.node, ok, "a negative maxsize (and only that, among integers) is rejected; 0 means unbounded", construct="rejects negative maxsize")
     # writers of the bound
     for f in ck.repo.methods(Q, "Queue"):
         if f.name != "__init__":
@@ -192,6 +201,7 @@ def check_expired(ck):
         cont = q.dotted(c.func.value)
         seen.add(cont)
         ck.ob("C35.expired", ce, c, c.func.attr == "popleft", "_consume_expired removes from the head")
+        ck.ob("C35.expired", ce, c, in_cycle(ce.cfg, nd), "finished heads are removed in a loop, until the head is live or the queue is empty (several waiters may have expired)")
         # the head's future is known done: a fact `<cont>[0]...done()` True
         ok = False
         for text, pol in facts[nd.id]:
@@ -239,6 +249,35 @@ def _is_put_internal(c):
     return isinstance(c, ast.Call) and isinstance(c.func, ast.Attribute) and q.dotted(c.func.value) == "self" and c.func.attr.endswith("__put_internal")
 
 
+def _acct(fi):
+    """Per CFG node: (items stored, tasks counted, finished-event clears).  A call of
+    __put_internal contributes (1, 1, 1) (its own body is checked separately); inlined
+    statements contribute individually, so an inlined copy of the helper is still decided."""
+    out = {}
+
+    def add(nid, i, k=1):
+        t = list(out.get(nid, (0, 0, 0)))
+        t[i] += k
+        out[nid] = tuple(t)
+
+    for nd, c in own_find(fi, lambda x: isinstance(x, ast.Call)):
+        if _is_put_internal(c):
+            add(nd.id, 0); add(nd.id, 1); add(nd.id, 2)
+        elif method_call_on(c, "self", "_put"):
+            add(nd.id, 0)
+        elif method_call_on(c, FIN, "clear"):
+            add(nd.id, 2)
+    for nd in fi.cfg.stmt_nodes(lambda nd: nd.kind == "stmt"):
+        d = aug_delta(nd.ast, UNF) if not isinstance(nd.ast, q.ScopeNode) else None
+        if d is not None and d > 0:
+            add(nd.id, 1, d)
+    return out
+
+
+def _store_sites(fi):
+    return own_find(fi, lambda x: _is_put_internal(x) or method_call_on(x, "self", "_put"))
+
+
 def check_accounting(ck):
     pi = ck.func(Q, "Queue.__put_internal")
     item = [p for p in pi.params() if p != "self"]
@@ -254,17 +293,28 @@ def check_accounting(ck):
     for _f, (p, i, c) in normal:
         ck.ob("C35.accounting", pi, pi.node, (p, i) == (1, 1) and c >= 1, "__put_internal stores the item once, counts one unfinished task and clears the finished event (puts=%d counted=%d cleared=%d)" % (p, i, c),
               construct="exit puts=%d counted=%d cleared=%d" % (p, i, c))
-    callers = [(f, c) for f, c in callers_of(ck.repo, "_put", [Q]) if isinstance(c.func, ast.Attribute)]
-    ck.floor("C35.accounting", len(callers), 1, "callers of _put")
-    for f, c in callers:
-        ck.ob("C35.accounting", f, c, f is pi, "_put is called only from __put_internal (every stored item is counted)")
-    # writers of the counter and of the event
-    for f in ck.repo.methods(Q, "Queue"):
+    # every other place that stores an item / counts a task / touches the event keeps the three in step
+    n = 0
+    for f in ck.repo.methods(Q, "Queue") + ck.repo.methods(Q, "PriorityQueue") + ck.repo.methods(Q, "LifoQueue"):
+        if f is pi or f.name == "__init__" or not isinstance(f.node, q.FuncNode):
+            continue
         for st in q.stores_to(f.node, UNF):
-            ck.ob("C35.accounting", f, st, f.name in ("__init__", "task_done", "__put_internal"), "_unfinished_tasks is written only by __init__/task_done/__put_internal")
+            d = aug_delta(st, UNF)
+            if d is not None and d < 0:
+                ck.ob("C35.accounting", f, st, f.name == "task_done", "the unfinished-task count is decremented only by task_done")
         for c in q.calls(f.node):
-            if method_call_on(c, FIN, "set", "clear"):
-                ck.ob("C35.accounting", f, c, f.name in ("__init__", "task_done", "__put_internal"), "the finished event is driven only by __init__/task_done/__put_internal")
+            if method_call_on(c, FIN, "set"):
+                ck.ob("C35.accounting", f, c, f.name == "task_done", "the finished event is set only by task_done (and the constructor)")
+        ac = _acct(f)
+        if not ac or f.name == "task_done" and not any(v[0] or v[1] for v in ac.values()):
+            continue
+        n += 1
+        normal, _ = exit_states(f.cfg, (0, 0, 0), lambda nd, v, ac=ac: tuple(min(2, a + b) for a, b in zip(v, ac.get(nd.id, (0, 0, 0)))))
+        for _f, (p_, c_, k_) in normal:
+            ck.ob("C35.accounting", f, f.node, c_ == (1 if (p_ or c_) else 0) and p_ <= 1 and (k_ >= 1 if c_ else True),
+                  "on every normal path of %s an item that enters the queue or is handed over is counted exactly once as an unfinished task and the finished event is cleared (stored=%d counted=%d cleared=%d)" % (f.name, p_, c_, k_),
+                  construct="exit stored=%d counted=%d cleared=%d" % (p_, c_, k_))
+    ck.floor("C35.accounting", n, 1, "methods that account for items")
     init = ck.func(Q, "Queue.__init__")
     z = [st for st in q.stores_to(init.node, UNF) if q.is_const(getattr(st, "value", None), 0)]
     sets = [c for c in q.calls(init.node) if method_call_on(c, FIN, "set")]
@@ -374,32 +424,41 @@ def check_nowait(ck):
     pops = _pop_binding(fi, GET)
     ck.floor("C35.put-nowait", len(pops), 1, "getter removals in put_nowait")
     getter_names = {nm for _, _, names in pops for nm in names}
-    pi = node_counts(fi, _is_put_internal)
+    ac = _acct(fi)
+    pi = {k: v[0] for k, v in ac.items() if v[0]}
     gi = node_counts(fi, lambda x: method_call_on(x, "self", "_get"))
     po = {nd.id: 1 for nd, _, _ in pops}
     ss = own_settle_sites(fi)
     si = node_counts(fi, lambda x: any(x is s[1] for s in ss))
-    tr = lambda nd, v: (min(2, v[0] + pi.get(nd.id, 0)), min(2, v[1] + gi.get(nd.id, 0)), min(2, v[2] + po.get(nd.id, 0)), min(2, v[3] + si.get(nd.id, 0)))
-    normal, _ = exit_states(cfg, (0, 0, 0, 0), tr)
+
+    def tr(nd, v):
+        a = ac.get(nd.id, (0, 0, 0))
+        return (min(2, v[0] + a[0]), min(2, v[1] + gi.get(nd.id, 0)), min(2, v[2] + po.get(nd.id, 0)), min(2, v[3] + si.get(nd.id, 0)), min(2, v[4] + a[1]), min(2, v[5] + a[2]))
+
+    Z = (0, 0, 0, 0, 0, 0)
+    normal, _ = exit_states(cfg, Z, tr)
     ck.floor("C35.put-nowait", len(normal), 2, "normal exit states of put_nowait")
     for _f, v in normal:
-        ck.ob("C35.put-nowait", fi, fi.node, v in ((1, 0, 0, 0), (1, 1, 1, 1)), "put_nowait either just stores the item, or stores it and hands one item to exactly one popped getter (stored=%d taken=%d getters=%d settled=%d)" % v,
-              construct="exit stored=%d taken=%d getters=%d settled=%d" % v)
-    for nd, c in own_find(fi, _is_put_internal):
+        shape = v[:4]
+        ok = shape in ((1, 0, 0, 0), (1, 1, 1, 1), (0, 0, 1, 1)) and v[4] == 1 and v[5] >= 1
+        ck.ob("C35.put-nowait", fi, fi.node, ok,
+              "put_nowait counts the item once (clearing the finished event) and either stores it, or stores it and hands one queued item to exactly one popped getter, or hands it to that getter directly (stored=%d taken=%d getters=%d settled=%d counted=%d cleared=%d)" % v,
+              construct="exit stored=%d taken=%d getters=%d settled=%d counted=%d cleared=%d" % v)
+    for nd, c in _store_sites(fi):
         ck.ob("C35.put-nowait", fi, c, len(c.args) == 1 and q.dotted(c.args[0]) == item, "the stored item is the caller's item")
     facts = must_facts(cfg)
     # raise QueueFull: nothing stored before
     from ..cfg import explore
-    seen = explore(cfg, (0, 0, 0, 0), tr, lambda t: False, follow_exc=False)
+    seen = explore(cfg, Z, tr, lambda t: False, follow_exc=False)
     raises = [nd for nd in cfg.stmt_nodes(lambda nd: nd.kind == "stmt" and isinstance(nd.ast, ast.Raise))]
     ck.ob("C35.put-nowait", fi, fi.node, len(raises) >= 1, "put_nowait has a reachable QueueFull path", construct="raises QueueFull")
     for nd in raises:
         for _f, v in sorted(seen.get(nd.id, ()), key=repr):
-            ck.ob("C35.put-nowait", fi, nd.ast, v == (0, 0, 0, 0), "QueueFull is raised before anything was stored or anyone was woken")
+            ck.ob("C35.put-nowait", fi, nd.ast, v == Z, "QueueFull is raised before anything was stored, counted or anyone was woken")
         ck.ob("C35.put-nowait", fi, nd.ast, holds(facts[nd.id], "self.full()", True) and (q.dotted(nd.ast.exc.func if isinstance(nd.ast.exc, ast.Call) else nd.ast.exc) == "QueueFull"), "QueueFull is raised only when full()")
     # direct store only when not full; hand-over only when a getter waits; store precedes take
     stored = event_facts(fi, {"stored": lambda nd: nd.id in pi}, cond_facts=False)
-    for nd, c in own_find(fi, _is_put_internal):
+    for nd, c in _store_sites(fi):
         has_pop_before = any(cfg.dominates(p, nd) for p, _, _ in pops)
         ck.ob("C35.put-nowait", fi, c, has_pop_before or holds(facts[nd.id], "self.full()", False), "an item is stored directly only when the queue is not full (never more than maxsize items)")
     for nd, c in own_find(fi, lambda x: method_call_on(x, "self", "_get")):
@@ -408,7 +467,7 @@ def check_nowait(ck):
         ck.ob("C35.put-nowait", fi, c, holds(facts[nd.id], GET, True), "a getter is popped only from a non-empty getter queue")
     for s in ss:
         v = _grant_value(s[1]) if _is_grant(s[1]) else None
-        ck.ob("C35.put-nowait", fi, s[1], s[2] in getter_names and v is not None and _is_taken_item(fi, v), "the popped getter receives an item taken from the queue")
+        ck.ob("C35.put-nowait", fi, s[1], s[2] in getter_names and v is not None and (_is_taken_item(fi, v) or q.dotted(v) == item), "the popped getter receives an item taken from the queue (or the new item itself)")
     check_settles(ck, "C35.settle", fi, allow_safe_unguarded=False, extra_ok=_consumed_extra_ok(fi, getter_names))
 
     # ---- get_nowait
@@ -416,24 +475,29 @@ def check_nowait(ck):
     cfg = fi.cfg
     pops = _pop_binding(fi, PUT)
     ck.floor("C35.get-nowait", len(pops), 1, "putter removals in get_nowait")
-    pi = node_counts(fi, _is_put_internal)
+    ac = _acct(fi)
     gi = node_counts(fi, lambda x: method_call_on(x, "self", "_get"))
     po = {nd.id: 1 for nd, _, _ in pops}
     ss = own_settle_sites(fi)
     si = node_counts(fi, lambda x: any(x is s[1] for s in ss))
-    tr = lambda nd, v: (min(2, v[0] + pi.get(nd.id, 0)), min(2, v[1] + gi.get(nd.id, 0)), min(2, v[2] + po.get(nd.id, 0)), min(2, v[3] + si.get(nd.id, 0)))
-    normal, _ = exit_states(cfg, (0, 0, 0, 0), tr)
+
+    def tr(nd, v):
+        a = ac.get(nd.id, (0, 0, 0))
+        return (min(2, v[0] + a[0]), min(2, v[1] + gi.get(nd.id, 0)), min(2, v[2] + po.get(nd.id, 0)), min(2, v[3] + si.get(nd.id, 0)), min(2, v[4] + a[1]), min(2, v[5] + a[2]))
+
+    normal, _ = exit_states(cfg, Z, tr)
     ck.floor("C35.get-nowait", len(normal), 2, "normal exit states of get_nowait")
     for _f, v in normal:
-        ck.ob("C35.get-nowait", fi, fi.node, v in ((0, 1, 0, 0), (1, 1, 1, 1)), "get_nowait takes exactly one item; if a putter waited, its item is stored and it is woken, exactly once (stored=%d taken=%d putters=%d settled=%d)" % v,
-              construct="exit stored=%d taken=%d putters=%d settled=%d" % v)
+        ok = (v[:5] == (0, 1, 0, 0, 0)) or (v[:5] == (1, 1, 1, 1, 1) and v[5] >= 1)
+        ck.ob("C35.get-nowait", fi, fi.node, ok, "get_nowait takes exactly one item; if a putter waited, its item is stored and counted and it is woken, exactly once (stored=%d taken=%d putters=%d settled=%d counted=%d cleared=%d)" % v,
+              construct="exit stored=%d taken=%d putters=%d settled=%d counted=%d cleared=%d" % v)
     facts = must_facts(cfg)
     for nd, c, names in pops:
         if len(names) != 2:
             raise AnalysisError("%s: putter entry not unpacked into two locals" % fi.site(c))
         it, fu = names[lay["item"]], names[lay["future"]]
         ck.ob("C35.get-nowait", fi, c, holds(facts[nd.id], PUT, True), "a putter is popped only from a non-empty putter queue")
-        for nd2, c2 in own_find(fi, _is_put_internal):
+        for nd2, c2 in _store_sites(fi):
             ck.ob("C35.layout", fi, c2, len(c2.args) == 1 and q.dotted(c2.args[0]) == it, "the item stored for a woken putter is the item slot of its entry (layout written by put: item at %d)" % lay["item"])
         for s in ss:
             v = _grant_value(s[1]) if _is_grant(s[1]) else None
@@ -446,10 +510,10 @@ def check_nowait(ck):
             ck.ob("C35.get-nowait", fi, nd.ast, ms, "without a waiting putter an item is taken only from a non-empty queue")
     raises = [nd for nd in cfg.stmt_nodes(lambda nd: nd.kind == "stmt" and isinstance(nd.ast, ast.Raise))]
     ck.ob("C35.get-nowait", fi, fi.node, len(raises) >= 1, "get_nowait has a reachable QueueEmpty path", construct="raises QueueEmpty")
-    seen = explore(cfg, (0, 0, 0, 0), tr, lambda t: False, follow_exc=False)
+    seen = explore(cfg, Z, tr, lambda t: False, follow_exc=False)
     for nd in raises:
         for _f, v in sorted(seen.get(nd.id, ()), key=repr):
-            ck.ob("C35.get-nowait", fi, nd.ast, v == (0, 0, 0, 0) and q.dotted(nd.ast.exc.func if isinstance(nd.ast.exc, ast.Call) else nd.ast.exc) == "QueueEmpty", "QueueEmpty is raised before anything was taken or anyone was woken")
+            ck.ob("C35.get-nowait", fi, nd.ast, v == Z and q.dotted(nd.ast.exc.func if isinstance(nd.ast.exc, ast.Call) else nd.ast.exc) == "QueueEmpty", "QueueEmpty is raised before anything was taken or anyone was woken")
     putter_names = {nm for _, _, names in pops for nm in names}
     check_settles(ck, "C35.settle", fi, allow_safe_unguarded=False, extra_ok=_consumed_extra_ok(fi, putter_names))
 
@@ -557,6 +621,8 @@ def check_blocking(ck):
     for facts, t in normal:
         none = (tfact, True) in facts
         ck.ob("C35.timeout", st, st.node, t == (0 if none else 1), "_set_timeout arms one timer iff a timeout was given (none=%s timers=%d)" % (none, t), construct="exit none=%s timers=%d" % (none, t))
+    n = check_none_tests(ck, "C35.none-test", st, only=[ps[1]])
+    ck.floor("C35.none-test", n, 1, "tests of the timeout in _set_timeout")
     check_timeout_cb(ck, st, ps[0], tmo, ps[1], R="C35.timeout", RS="C35.settle", expect="exc", val=None, safe_ok=False)
 
 
@@ -590,6 +656,7 @@ def run(ck):
     ck.rule("C35.put", "put: fresh future; put_nowait under a QueueFull handler; success -> completed with None; full -> queued at the tail with the timeout, not completed")
     ck.rule("C35.get", "get: fresh future; get_nowait under a QueueEmpty handler; success -> completed with the item; empty -> queued at the tail with the timeout")
     ck.rule("C35.layout", "the (item, future) layout of putter entries agrees between put (writer), get_nowait and _consume_expired (readers)")
+    ck.rule("C35.none-test", "_set_timeout compares the timeout with None by identity (timeout=0 is a legal, immediate timeout)")
     ck.rule("C35.timeout", "_set_timeout arms one timer iff a timeout is given; its callback fails a live future with TimeoutError exactly once and does nothing else")
     ck.rule("C35.waiter-fifo", "the getter/putter queues are modified only by append and popleft; only _consume_expired peeks at the head")
     ck.rule("C35.settle", "every settle of a getter/putter future is on a fresh future, under not done(), or on the head popped after a dominating _consume_expired() with no suspension in between")
@@ -632,6 +699,11 @@ def _get_before_put(root):
 
 
 MUTANTS = [
+    ("_consume_expired removes only one expired waiter per queue (while -> if)", _in("Queue._consume_expired", lambda root: _while_to_if(root)), "C35.expired"),
+    ("Queue(maxsize=0) rejected (maxsize <= 0)", _in("Queue.__init__", _cmp_op(ast.Lt, ast.LtE)), "C35.full"),
+    ("put_nowait hands the item to the getter and counts it inline but never clears the finished event (seeded C35-adv1)", _in("Queue.put_nowait", lambda root: _inline_handoff(root, clear=False)), ("C35.put-nowait", "C35.accounting")),
+    ("get_nowait stores the putter's item with _put and forgets to count it", _in("Queue.get_nowait", replace_expr(lambda n: _is_put_internal(n), lambda n: ast.Call(func=ast.Attribute(value=ast.Name(id="self", ctx=ast.Load()), attr="_put", ctx=ast.Load()), args=n.args, keywords=[]))), ("C35.get-nowait", "C35.accounting")),
+    ("get/put(timeout=0) wait forever (`if timeout:` in _set_timeout)", _in("_set_timeout", replace_expr(lambda n: isinstance(n, ast.Compare) and isinstance(n.ops[0], ast.IsNot) and ast.unparse(n.left) == "timeout", lambda n: n.left)), ("C35.none-test", "C35.timeout")),
     ("put_nowait does not purge expired getters", _in("Queue.put_nowait", remove_stmts(lambda st: "_consume_expired" in ast.unparse(st))), ("C35.expired", "C35.settle")),
     ("get_nowait does not purge expired putters", _in("Queue.get_nowait", remove_stmts(lambda st: "_consume_expired" in ast.unparse(st))), ("C35.expired", "C35.settle")),
     ("put_nowait stores without accounting (_put instead of __put_internal)", _in("Queue.put_nowait", replace_expr(lambda n: _is_put_internal(n), lambda n: ast.Call(func=ast.Attribute(value=ast.Name(id="self", ctx=ast.Load()), attr="_put", ctx=ast.Load()), args=n.args, keywords=[]))), ("C35.accounting", "C35.put-nowait")),
@@ -651,3 +723,15 @@ MUTANTS = [
     ("_consume_expired drops live head getters", _in("Queue._consume_expired", replace_expr(lambda n: isinstance(n, ast.BoolOp) and "_getters" in ast.unparse(n), lambda n: n.values[0])), "C35.expired"),
     ("timeout callback fires on a finished future (guard removed)", _in("_set_timeout.<locals>.on_timeout", _drop_done_test), ("C35.settle", "C35.timeout")),
 ]
+
+
+def _inline_handoff(root, clear):
+    for node in ast.walk(root):
+        body = getattr(node, "body", None)
+        if isinstance(body, list):
+            for i, st in enumerate(body[:-1]):
+                if isinstance(st, ast.Expr) and "put_internal" in ast.unparse(st) and "_get()" in ast.unparse(body[i + 1]):
+                    new = [parse_stmt("self._unfinished_tasks += 1")] + ([parse_stmt("self._finished.clear()")] if clear else []) + [parse_stmt("future_set_result_unless_cancelled(getter, item)")]
+                    body[i:i + 2] = new
+                    return True
+    return False
